@@ -3,8 +3,34 @@ from . import core
 
 PROP_FILE = 'Properties/C01.v'
 THEOREMS = ['C01_output_atoms_partial', 'C01_optional_paren_sound', 'C01_markup_source_lines',
-            'C01_flow_stylist_conserves', 'C01_plain_stylist_conserves', 'C01_list_stylist_conserves', 'C01_chain_printer_conserves', 'C01_chain_builder_attaches_after_a_body', 'C01_chain_stylist_conserves']
+            'C01_flow_stylist_conserves', 'C01_plain_stylist_conserves', 'C01_list_stylist_conserves', 'C01_chain_printer_conserves', 'C01_chain_builder_attaches_after_a_body', 'C01_chain_stylist_conserves',
+            'C01_every_layout_has_the_signature', 'C01_rendered_text_has_the_signature', 'C01_list_printer_signature',
+            'C01_chain_printer_signature', 'C01_plain_printer_signature']
+
+
+def sig_certificate(ck, recs):
+    """Per case: the extracted `sig_check`, applied to the document the IMPLEMENTATION built (dumped by the harness; K3 renders the same dump), says that it carries exactly the signature of the source
+    tree (its text minus blanks and the delimiters ( ) [ ] { } $ , ; :) along the flat branches and that both branches of
+    every flat_alt agree; by C01_every_layout_has_the_signature this holds of every layout of that document, at every
+    width. Cases outside `sig_scope` (exotic blanks, a comment between `not` and `in`) and with import reordering on are
+    not judged."""
+    ok = [r for r in recs if r.get("k") and r["k"].get("impl") == "ok" and r["reorder"] == 0]
+    inscope = [r for r in ok if r["k"].get("impl_sig") is not None]
+    bad = [r for r in inscope if r["k"].get("impl_sig") is False]
+    ck.extra["sig_certificate_model_docs_failed"] = len([r for r in ok if r["k"].get("model_sig") is False])
+    ck.extra["sig_certificate"] = {"accepted_cases_reorder_off": len(ok), "in_scope": len(inscope), "failed": len(bad)}
+    ck.oblige("signature certificate: the implementation's document in each of %d in-scope cases carries the source tree's signature on every layout" % len(inscope),
+              not bad, ("first: %r" % (core.case_of(bad[0]),))[:500] if bad else "")
+    seen = set()
+    for r in bad:
+        if len(ck.violations) >= 3 or r["src"] in seen:
+            continue
+        seen.add(r["src"])
+        ck.violation("counterexample", {
+            "what": "the document the formatter lays out does not carry the source's tokens in order (a token other than a blank or a delimiter ( ) [ ] { } $ , ; : is lost, added or moved)",
+            "input": {"width": r["w"], "tab": r["tab"], "reorder": 0, "source": r["src"]},
+            "reproduce": "tyv full on the input, then `model sig` on the dumped tree: the two signatures differ"})
 
 
 def run(tier, seed, replay=None):
-    return core.run_property('C01', tier, seed, replay, 'c01', PROP_FILE, THEOREMS, "the formatted text does not parse to a syntax tree equivalent to the input's (skeleton mismatch)", ["A1/A2: the re-parsed half of the property relies on typst_syntax::parse, which is outside the model; the skeleton oracle (harness/src/obs.rs) is an executable reading of 'equivalent tree' and is testing, not proof", 'the theorems are the parser-free mechanisms (token emission in document order at every width, optional delimiters, markup line structure); the four stylists are proved to conserve what they are handed (flow, plain, list, chain printer); that the producer of every converter hands every non-trivia child to its stylist is not yet proved and is covered by K5 (model output == implementation output) on every case'])
+    return core.run_property('C01', tier, seed, replay, 'c01', PROP_FILE, THEOREMS, "the formatted text does not parse to a syntax tree equivalent to the input's (skeleton mismatch)", ["A1/A2: the re-parsed half of the property relies on typst_syntax::parse, which is outside the model; the skeleton oracle (harness/src/obs.rs) is an executable reading of 'equivalent tree' and is testing, not proof", 'the theorems are the parser-free mechanisms (token emission in document order at every width, optional delimiters, markup line structure); the four stylists are proved to conserve what they are handed (flow, plain, list, chain printer); that the producer of every converter hands every non-trivia child to its stylist is not yet proved and is covered by K5 (model output == implementation output) on every case'], post=sig_certificate)
